@@ -1,7 +1,7 @@
 """C04 Gonality is the least degree of a rank>=1 divisor; strategies are genuine."""
 import random, common, oracle as O
 RULE = ("connected multigraphs (trees, cycles, complete, wheels, multi-edge incl. banana graphs and doubled cycles) on <=5 (quick) / <=6 (thorough) vertices x all max_gonality cut-offs 0..|V| "
-        "x {find_strategies on, off}; random placements x all opponent vertices; every sink for the per-sink search; non-trivial = distinct graph with >= 3 vertices")
+        "x {find_strategies on, off}; per-sink searches with long candidate lists (15/16-cycles, 3x3 grid, K_{4,4}, K_6, dense 7-vertex multigraphs); random placements x all opponent vertices; every sink for the per-sink search; non-trivial = distinct graph with >= 3 vertices")
 EXPLANATION = ("gonality value (both flags, every cut-off), single games, strategy tests (works + set of losing vertices) and the per-sink result (k and the SET of multisets) are compared for equality "
                "with the model (theorems C04_*); the reported winning_strategies go through the checker implied by C04_gonality: non-empty iff a gonality was found, each effective, exactly k chips, rank >= 1")
 def gen(rng, tier):
@@ -14,6 +14,19 @@ def gen(rng, tier):
             else: G = common.mk_graph(n, [(i, i + 1, rng.randint(1, 3)) for i in range(n - 1)], rng)
             fam = kind
         else: G, fam = common.random_connected_graph(rng, 1, 5 if tier == "quick" else 6)
+        if rng.random() < 0.07:
+            # per-sink searches whose candidate lists are LONG (> 100 multisets at the deciding size): only the per-sink entry points are run on these
+            kind = rng.choice(["cycle15", "grid33", "k44", "k6", "dense7"])
+            if kind == "cycle15": n = rng.randint(15, 16); G = common.mk_graph(n, [(i, (i + 1) % n, 1) for i in range(n)], rng); qm = 2
+            elif kind == "grid33": G = common.mk_graph(9, [(3 * r + c, 3 * r + c + 1, 1) for r in range(3) for c in range(2)] + [(3 * r + c, 3 * r + c + 3, 1) for r in range(2) for c in range(3)], rng); qm = 3
+            elif kind == "k44": G = common.mk_graph(8, [(a, 4 + b, 1) for a in range(4) for b in range(4)], rng); qm = 4
+            elif kind == "k6": G = common.mk_graph(6, [(a, b, 1) for a in range(6) for b in range(a + 1, 6)], rng); qm = None
+            else:
+                e = {(a, b): rng.choice([1, 1, 2]) for a in range(7) for b in range(a + 1, 7) if rng.random() < 0.75}
+                for v in range(1, 7): e.setdefault((v - 1, v), 1)
+                G = common.mk_graph(7, [(a, b, k) for (a, b), k in sorted(e.items())], rng); qm = 4
+            out.append({"G": G, "fam": "bigsink-" + kind, "only_ps": True, "q": rng.randrange(G["n"]), "qmax": qm, "s": rng.randrange(1 << 30), "maxg": None, "P": [0] * G["n"], "v": 0, "grow": None})
+            continue
         n = G["n"]
         P = [0] * n
         for _ in range(rng.randint(1, 4)): P[rng.randrange(n)] += 1
@@ -28,6 +41,10 @@ def impl(c):
     from chipfiring import CFDivisor
     rng = random.Random(c["s"]); G = c["G"]; names = G["names"]; idx = {x: i for i, x in enumerate(names)}
     g = common.build_impl_graph(G, rng)
+    if c.get("only_ps"):
+        from chipfiring.CFGonalityDhar import batch_gonality_analysis
+        k, S = enhanced_dhar_gonality_test(g, names[c["q"]], c["qmax"]); r0 = list(batch_gonality_analysis([(g, names[c["q"]])], c["qmax"]).values())[0]
+        return {"persink": [k, sorted(sorted(idx[x] for x in s) for s in S)], "ps_analysis": [r0["gonality"], sorted(sorted(idx[x] for x in s) for s in r0["minimal_strategies"])]}
     out = _battery(c, G, g, names, idx)
     if c.get("grow"):       # history: the SAME graph object grows an edge, then every entry point is asked again (answers must be for the graph as it is now)
         a, b, k = c["grow"]; g.add_edge(names[a], names[b], k)
@@ -106,7 +123,10 @@ def _ml2(c, o):
         for s in o["strat_%d" % fs]:
             if isinstance(s, list): ls.append(["strat"] + common.enc_graph(c["G"]) + common.enc_list(s))
     return ls
+def _psline(c):
+    n = c["G"]["n"]; return ["persink"] + common.enc_graph(c["G"]) + [c["q"], max(0, (n - 1) if c["qmax"] is None else c["qmax"])]
 def model_lines(c, r):
+    if c.get("only_ps"): return [_psline(c)]
     if "ok" not in r: return _ml(c)
     ls = _ml2(c, r["ok"])
     if c.get("grow") and "after" in r["ok"]: ls += _ml2(grown(c), r["ok"]["after"])
@@ -121,6 +141,12 @@ def _j2(c, o, mo, tag):
     return out
 def judge(c, r, mo):
     if "exc" in r: return _j(c, r, mo)
+    if c.get("only_ps"):
+        if mo[0][0] == "FUEL": return []
+        n = c["G"]["n"]; pk, pS = _strats(mo[0], n); pS = sorted(sorted(v for v in range(n) for _ in range(P[v])) for P in pS); o = r["ok"]
+        return [{"what": "%s(q=%d, max=%s) on a %d-vertex graph = (%s, %d strategies), model (%d, %d strategies)%s" % (nm, c["q"], c["qmax"], n, o[f][0], len(o[f][1]), pk, len(pS),
+                         "; missing from the answer e.g. %s" % [x for x in pS if x not in o[f][1]][:3] if o[f][0] == pk else "")}
+                for f, nm in (("persink", "enhanced_dhar_gonality_test"), ("ps_analysis", "batch_gonality_analysis")) if o[f] != [pk, pS]][:2]
     k1 = len(_ml2(c, r["ok"]))
     out = _j2(c, r["ok"], mo[:k1], "")
     if c.get("grow") and "after" in r["ok"] and not out:
@@ -128,10 +154,21 @@ def judge(c, r, mo):
     return out[:2]
 def oracle(c, r):
     if r is None or "exc" in r: return {"violates": True, "why": "raised / no answer"}
+    if c.get("only_ps"):
+        exp = _ps_truth(c); why = ["%s = (%s, %d strategies), by definition (%d, %d strategies)" % (f, r["ok"][f][0], len(r["ok"][f][1]), exp[0], len(exp[1])) for f in ("persink", "ps_analysis") if r["ok"][f] != exp]
+        return {"violates": bool(why), "why": why}
     a = _oracle1(c, r["ok"])
     if not a["violates"] and c.get("grow") and "after" in r["ok"]:
         a = _oracle1(grown(c), r["ok"]["after"]); a["why"] = ["after add_edge: " + w for w in a["why"]]
     return a
+def _ps_truth(c):
+    import itertools
+    m = O.mk(c["G"]); n = len(m); q = c["q"]; qm = max(0, (n - 1) if c["qmax"] is None else c["qmax"]); exp = [qm + 1, []]
+    for k in range(1, qm + 1):
+        S = [list(cmb) for cmb in itertools.combinations_with_replacement([v for v in range(n) if v != q], k)
+             if O.winnable(m, [sum(1 for x in cmb if x == i) - (i == q) for i in range(n)])]
+        if S: exp = [k, sorted(S)]; break
+    return exp
 def _oracle1(c, o):
     r = {"ok": o}
     m = O.mk(c["G"]); n = len(m); o = r["ok"]; why = []
